@@ -1,19 +1,28 @@
-(** C10 - equal values written differently give identical bits.  PROVED END TO END: [C10_value_invariant] for any two valid inputs denoting the same rational; plus the stage-1 facts (re-splittings are folded into the same Number).
-    Domain and premise as in props/C01.v: [in_domain] = valid_inputb and at most 2^28 digits, every i32
-    exponent; [deep_ok] is vacuous for the compact configurations and the single residual premise for
-    the Eisel-Lemire ones (see props/C01.v).  Closed by [exact]; the model is tied to /repo by the
-    correspondence harness on every run. *)
+(** C10 - equal values written differently give identical bits.  PROVED END TO END: [C10_final] for any two valid inputs denoting the same rational; plus the stage-1 facts (re-splittings are folded into the same Number).
+    Domain as in props/C01.v: [in_domain] = valid_inputb (ASCII digits, integer part without leading zero, any
+    i32 exponent) and at most 2^28 digits; all eight configurations, both formats, both build modes; NO further
+    premise (the [deep_ok] versions are kept beneath as the intermediate statements).  Closed by [exact]; the
+    model is tied to /repo by the correspondence harness on every run. *)
 
 From Coq Require Import ZArith QArith Qabs List Bool Reals Qreals.
 From Coq Require Import Floats.SpecFloat.
 From Flocq Require Import Core.Core.
-From ML Require Import base.RustSem model.Fmt model.Num model.Number model.Parse model.Lemire model.Bellerophon model.Top
+From ML Require Import base.RustSem model.Fmt model.Num model.Number model.Parse model.Lemire model.Bellerophon model.Vec model.Bigint model.Slow model.Top
   spec.Decimal spec.Round spec.RoundFacts spec.DigitsSuffice gen.Consts gen.Tables gen.BTables gen.PowDump
   proofs.ParseFacts proofs.FastPathFacts proofs.EndToEnd proofs.EndToEnd2 proofs.EndToEnd3 proofs.EndToEnd4 proofs.EndToEnd5 proofs.EndToEnd6 proofs.EndToEnd7
-  proofs.LemireFacts6 proofs.Glue.
+  proofs.LemireFacts6 proofs.Glue proofs.TruncFacts proofs.TruncFacts2 proofs.SlowFacts1 proofs.DeepFallback proofs.DeepFallback2 proofs.Final.
 Import ListNotations.
 
 Open Scope Z_scope.
+
+Theorem C10_C10_final :
+  forall (c : config) (f : format) (b : build) (i1 f1 : list Z) (e1 : Z) (i2 f2 : list Z) (e2 : Z),
+         In c ALL_CONFIGS ->
+         f = F32 \/ f = F64 ->
+         in_domain i1 f1 e1 ->
+         in_domain i2 f2 e2 ->
+         dec_value i1 f1 e1 == dec_value i2 f2 e2 -> PF c f b i1 f1 e1 = PF c f b i2 f2 e2.
+Proof. exact C10_final. Qed.
 
 Theorem C10_C10_value_invariant :
   forall (c : config) (f : format) (b : build) (i1 f1 : list Z) (e1 : Z) (i2 f2 : list Z) (e2 : Z),
@@ -21,8 +30,8 @@ Theorem C10_C10_value_invariant :
          f = F32 \/ f = F64 ->
          in_domain i1 f1 e1 ->
          in_domain i2 f2 e2 ->
-         deep_ok c f b i1 f1 e1 ->
-         deep_ok c f b i2 f2 e2 ->
+         EndToEnd7.deep_ok c f b i1 f1 e1 ->
+         EndToEnd7.deep_ok c f b i2 f2 e2 ->
          dec_value i1 f1 e1 == dec_value i2 f2 e2 -> PF c f b i1 f1 e1 = PF c f b i2 f2 e2.
 Proof. exact C10_value_invariant. Qed.
 
@@ -48,6 +57,7 @@ Theorem C10_appended_zero_value :
 Proof. exact appended_zero_value. Qed.
 
 
+Print Assumptions C10_C10_final.
 Print Assumptions C10_C10_value_invariant.
 Print Assumptions C10_RN_Qeq.
 Print Assumptions C10_resplit_number_consistent.
